@@ -160,7 +160,13 @@ func c12Judge(op, impl, model string) Verdict {
 		}
 	}
 	ip := splitModel(impl)
-	if wild {
+	if wild && !newPathsPrefixFree(pairs) {
+		// a wildcard makes the order of collected values depend on map iteration order, and with
+		// overlapping new paths "the first map in the list" then differs from run to run: the
+		// implementation itself is not deterministic here, only the oracles are evaluated
+		v.Tags = append(v.Tags, "newmap:wildcard+overlap")
+		v.Skipped, v.CorrOK = true, true
+	} else if wild {
 		v.Tags = append(v.Tags, "newmap:wildcard")
 		v.CorrOK = canonSorted(ip[0]) == canonSorted(model)
 	} else {
@@ -232,4 +238,26 @@ func init() {
 		QuickN:    3000,
 		ThoroughN: 150000,
 	})
+}
+
+func newPathsPrefixFree(pairs []string) bool {
+	var news [][]string
+	for _, p := range pairs {
+		if p == "" {
+			continue
+		}
+		_, nk, ok := pairParts(p)
+		if !ok {
+			continue
+		}
+		news = append(news, strings.Split(strings.TrimSuffix(nk, "."), "."))
+	}
+	for i := range news {
+		for j := range news {
+			if i != j && len(news[i]) <= len(news[j]) && strings.Join(news[j][:len(news[i])], "\x00") == strings.Join(news[i], "\x00") {
+				return false
+			}
+		}
+	}
+	return true
 }
